@@ -41,3 +41,39 @@ Definition ofList {X} (f : X -> sexp) (l : list X) : sexp := L (map f l).
 
 (** Result of a malformed case: the harness treats it as a harness error. *)
 Definition bad_case : sexp := L [A (-1)].
+
+(** Structural equality on sexp (states of grammars/automata are opaque sexps). *)
+Fixpoint sexp_eqb (a b : sexp) : bool :=
+  match a, b with
+  | A x, A y => Z.eqb x y
+  | L l, L l' =>
+    (fix go (l l' : list sexp) : bool :=
+       match l, l' with
+       | [], [] => true
+       | x :: r, y :: r' => sexp_eqb x y && go r r'
+       | _, _ => false
+       end) l l'
+  | _, _ => false
+  end.
+
+Section SexpInd.
+  Variable P : sexp -> Prop.
+  Hypothesis HA : forall z, P (A z).
+  Hypothesis HL : forall l, Forall P l -> P (L l).
+  Fixpoint sexp_ind' (s : sexp) : P s :=
+    match s with
+    | A z => HA z
+    | L l => HL l ((fix go (l : list sexp) : Forall P l :=
+                      match l with [] => Forall_nil _ | x :: r => Forall_cons _ (sexp_ind' x) (go r) end) l)
+    end.
+End SexpInd.
+
+Lemma sexp_eqb_spec : forall a b, sexp_eqb a b = true <-> a = b.
+Proof.
+  induction a as [x|l IH] using sexp_ind'; intros [y|l']; cbn; try (split; congruence).
+  - rewrite Z.eqb_eq; split; congruence.
+  - revert l'. induction IH as [|x r Hx _ IHr]; intros [|y r']; try (split; congruence).
+    rewrite Bool.andb_true_iff, Hx, (IHr r'). split.
+    + intros [-> E]; inversion E; reflexivity.
+    + intros E; inversion E; auto.
+Qed.
